@@ -398,4 +398,93 @@ Proof.
            split; [eapply same_mod_trans; eauto|]. rewrite X4. apply same_mod_view. exact B.
 Qed.
 
+(* ---------- command lines c1|c2|...: the frame at the granularity of single commands ---------- *)
+Fixpoint run_lines (s : st) (ls : list (list (cmd Op))) : st :=
+  match ls with
+  | [] => s
+  | l :: r => if xquit s then s else run_lines (fst (ex_line Lo s l)) r
+  end.
+Fixpoint lsafe (s : st) (cs : list (cmd Op)) : Prop :=
+  match cs with
+  | [] => True
+  | c :: r => no_alloc_or_room s (fst (ex_exec Lo s c)) /\ lsafe (fst (ex_exec Lo s c)) r
+  end.
+Fixpoint safe_lines (s : st) (ls : list (list (cmd Op))) : Prop :=
+  match ls with
+  | [] => True
+  | l :: r => xquit s = true \/ (lsafe s l /\ safe_lines (fst (ex_line Lo s l)) r)
+  end.
+
+Lemma exec_all_cons s c r : fst (exec_all Lo s (c :: r)) = fst (exec_all Lo (fst (ex_exec Lo s c)) r).
+Proof. cbn [exec_all]. destruct (ex_exec Lo s c) as [s1 e1]. cbn [fst]. destruct (exec_all Lo s1 r). reflexivity. Qed.
+Lemma line_of_exec_all s cs : fst (ex_line Lo s cs) = set_bufs (fst (exec_all Lo s cs)) (upd0 bump (bufs (fst (exec_all Lo s cs)))).
+Proof. unfold ex_line. destruct (exec_all Lo s cs). reflexivity. Qed.
+Lemma line_single s c : fst (ex_line Lo s [c]) = fst (ex_command Lo s c).
+Proof. unfold ex_line, ex_command. cbn [exec_all]. destruct (ex_exec Lo s c). reflexivity. Qed.
+Lemma run_lines_single : forall cs s, run_lines s (map (fun c => [c]) cs) = run Lo s cs.
+Proof. induction cs as [|c r IH]; intro s; cbn [map run_lines run]; [reflexivity|]. destruct (xquit s); [reflexivity|]. rewrite line_single. apply IH. Qed.
+
+Lemma exec_length s c : length (bufs s) = NB -> length (bufs (fst (ex_exec Lo s c))) = NB.
+Proof.
+  intro Hl. pose proof (step_length Lo s c Hl) as H. unfold ex_command in H. destruct (ex_exec Lo s c) as [s1 e]. cbn [fst bufs set_bufs] in *.
+  rewrite upd0_length in H. exact H.
+Qed.
+Lemma exec_all_length : forall cs s, length (bufs s) = NB -> length (bufs (fst (exec_all Lo s cs))) = NB.
+Proof. induction cs as [|c r IH]; intros s Hl; [exact Hl|]. rewrite exec_all_cons. apply IH, exec_length, Hl. Qed.
+Lemma line_length s cs : length (bufs s) = NB -> length (bufs (fst (ex_line Lo s cs))) = NB.
+Proof. intro Hl. rewrite line_of_exec_all. cbn [bufs set_bufs]. rewrite upd0_length. apply exec_all_length, Hl. Qed.
+
+Lemma frame_exec_all s c : length (bufs s) = NB -> no_alloc_or_room s (fst (ex_exec Lo s c)) -> K' s (fst (ex_exec Lo s c)).
+Proof.
+  intros Hl Hroom.
+  assert (D : c = CBufRenum \/ c <> CBufRenum) by (destruct c; auto; right; discriminate).
+  destruct D as [->|Hr]; [|apply K_K', frame_exec; assumption].
+  cbn [ex_exec ec_buffer_renum fst]. apply K'_number.
+Qed.
+
+Lemma line_frame : forall cs s j b, length (bufs s) = NB -> (1 <= j)%nat -> nth_error (bufs s) j = Some (Some b) -> lsafe s cs ->
+  (exists j' b', (1 <= j')%nat /\ nth_error (bufs (fst (exec_all Lo s cs))) j' = Some (Some b') /\ same_mod_id b b')
+  \/ (exists l1 c l2 b', cs = l1 ++ c :: l2 /\ slot0 (fst (ex_exec Lo (fst (exec_all Lo s l1)) c)) = Some b' /\ same_mod_id b b' /\
+                         xv (fst (ex_exec Lo (fst (exec_all Lo s l1)) c)) = b_view b).
+Proof.
+  induction cs as [|c r IH]; intros s j b Hl Hj Hb Hs.
+  - left. exists j, b. cbn. repeat split; auto. apply bumped_refl.
+  - cbn [lsafe] in Hs. destruct Hs as [Hroom Hs].
+    pose proof (frame_exec_all s c Hl Hroom j b Hj Hb) as (j' & b' & A & B & C). destruct j' as [|j'].
+    + right. exists [], c, r, b'. cbn [app exec_all fst]. split; [reflexivity|]. split; [rewrite slot0_nth, A; reflexivity|]. split; [exact B|]. apply C. reflexivity.
+    + destruct (IH (fst (ex_exec Lo s c)) (S j') b' (exec_length s c Hl) ltac:(lia) A Hs) as [(j2 & b2 & X1 & X2 & X3)|(l1 & c' & l2 & b2 & X1 & X2 & X3 & X4)].
+      * left. exists j2, b2. rewrite exec_all_cons. split; [exact X1|]. split; [exact X2|]. eapply same_mod_trans; eauto.
+      * right. exists (c :: l1), c', l2, b2. rewrite exec_all_cons. split; [rewrite X1; reflexivity|]. split; [exact X2|].
+        split; [eapply same_mod_trans; eauto|]. rewrite X4. apply same_mod_view. exact B.
+Qed.
+
+Theorem isolation_lines : forall ls s j b, length (bufs s) = NB -> (1 <= j)%nat -> nth_error (bufs s) j = Some (Some b) -> safe_lines s ls ->
+  (exists j' b', (1 <= j')%nat /\ nth_error (bufs (run_lines s ls)) j' = Some (Some b') /\ same_mod_id b b')
+  \/ (exists pre l1 c l2 post b', ls = pre ++ (l1 ++ c :: l2) :: post /\
+        slot0 (fst (ex_exec Lo (fst (exec_all Lo (run_lines s pre) l1)) c)) = Some b' /\ same_mod_id b b' /\
+        xv (fst (ex_exec Lo (fst (exec_all Lo (run_lines s pre) l1)) c)) = b_view b).
+Proof.
+  induction ls as [|l r IH]; intros s j b Hl Hj Hb Hs.
+  - left. exists j, b. cbn. repeat split; auto. apply bumped_refl.
+  - cbn [run_lines]. destruct (xquit s) eqn:Q.
+    + left. exists j, b. repeat split; auto. apply bumped_refl.
+    + cbn [safe_lines] in Hs. destruct Hs as [Hs|(Hls & Hs)]; [congruence|].
+      destruct (line_frame l s j b Hl Hj Hb Hls) as [(j1 & b1 & Y1 & Y2 & Y3)|(l1 & c & l2 & b1 & Y1 & Y2 & Y3 & Y4)].
+      * assert (A : nth_error (bufs (fst (ex_line Lo s l))) j1 = Some (Some b1)).
+        { rewrite line_of_exec_all. cbn [bufs set_bufs]. rewrite upd0_tail by exact Y1. exact Y2. }
+        destruct (IH (fst (ex_line Lo s l)) j1 b1 (line_length s l Hl) Y1 A Hs) as [(j2 & b2 & X1 & X2 & X3)|(pre & l1 & c & l2 & post & b2 & X1 & X2 & X3 & X4)].
+        -- left. exists j2, b2. split; [exact X1|]. split; [exact X2|]. eapply same_mod_trans; eauto.
+        -- right. exists (l :: pre), l1, c, l2, post, b2. cbn [app run_lines]. rewrite Q. split; [rewrite X1; reflexivity|]. split; [exact X2|].
+           split; [eapply same_mod_trans; eauto|]. rewrite X4. apply same_mod_view. exact Y3.
+      * right. exists [], l1, c, l2, r, b1. cbn [app run_lines]. split; [rewrite Y1; reflexivity|]. auto.
+Qed.
+
+Theorem wf_line : forall cs s, wf s -> wf (fst (ex_line Lo s cs)).
+Proof.
+  intros cs s W. rewrite line_of_exec_all.
+  assert (W2 : wf (fst (exec_all Lo s cs))).
+  { revert s W. induction cs as [|c r IH]; intros s W; [exact W|]. rewrite exec_all_cons. apply IH, (wf_exec Lo), W. }
+  unfold wf in *. cbn [bufs cnt set_bufs]. rewrite idl_upd0; auto.
+Qed.
+
 End Reach.
